@@ -25,7 +25,8 @@ RUNS = {"quick": 2000, "thorough": 80000}
 WALL_LIMIT = {"quick": 1200, "thorough": 5 * 3600}
 PROBES = ["permutation_checked", "onsets_unordered_warning_expected", "handler_reused", "delay_group", "duration_group",
           "temporal_marker", "cell_with_defect", "row_equality_checked", "row_superset_checked", "na_cells", "no_onset_column",
-          "spreadsheet_input_no_header", "tied_or_nonnumeric_onsets", "unit_spelling_variety", "cross_column_repeat"]
+          "spreadsheet_input_no_header", "tied_or_nonnumeric_onsets", "unit_spelling_variety", "cross_column_repeat",
+          "rejected_unit_spelling_kept_as_defect"]
 RULE = ("Each run generates an events table (onset column with distinct numeric values; ties / non-numeric in a sub-batch; "
         "1-3 HED-bearing columns: HED column, categorical, value) whose cells are valid or carry one seeded defect (unknown tag, "
         "unbalanced parenthesis, empty element, repeated tag), with Delay/Duration groups in every unit spelling string "
@@ -147,7 +148,7 @@ def generate(run_index, seed, tier):
                     row[c] = _defect_cell(g)[0]
                 elif x < 0.85 and has_onset:
                     unit = g.pick(TIME_UNITS)
-                    val = g.pick(["2", "0.5", "1.25", "300"])
+                    val = g.pick(["2", "0.5", "1.25", "300", "2", "0.5", "abc", ""])
                     kind = g.pick(["Delay", "Duration", "Duration"])
                     row[c] = "(%s/%s %s, (%s))%s" % (kind, val, unit, g.pick(PLAIN), ", " + g.pick(PLAIN) if g.chance(0.5) else "")
                 elif has_onset and c == "HED":
@@ -170,8 +171,13 @@ def generate(run_index, seed, tier):
         oi = cols.index("onset")
         j = g.randrange(1, n)
         rows[j][oi] = rows[j - 1][oi]
-        if g.chance(0.3):
-            rows[g.randrange(n)][oi] = g.pick(["n/a", "abc"])
+        if g.chance(0.5):
+            k = g.randrange(n)
+            rows[k][oi] = g.pick(["n/a", "abc"])
+            if g.chance(0.5):
+                for ci, c in enumerate(cols):
+                    if c == "HED":
+                        rows[k][ci] = "(Delay/2 s, (%s))" % g.pick(PLAIN)
     sc.update(columns=cols, rows=rows, sidecar=sidecar)
     if sc["kind"] == "spreadsheet":
         sc["header"] = g.chance(0.5)
@@ -281,7 +287,8 @@ def execute(sc, script=None):
                     units_seen.add(cell.split()[1].rstrip(","))
                     probe("delay_group" if cell.startswith("(Delay") else "duration_group")
                 else:
-                    r[ci] = "Face"
+                    # a spelling string validation rejects: the cell simply carries an error (superset rule, never raises)
+                    probe("rejected_unit_spelling_kept_as_defect")
             if "Def/" in cell:
                 probe("temporal_marker")
             if cell == "n/a":
